@@ -20,7 +20,7 @@ def keyJson : Option Key → Json
   | some (.gen _) => Json.arr #["gen"]
 
 def optNat : Option Nat → Json | none => .null | some n => n
-def natsJson (l : List Nat) : Json := Json.arr (l.map (fun n => (n : Json))).toArray
+def natsJson (l : List Nat) : Json := Json.arr (l.map (fun (n : Nat) => (Json.num n : Json))).toArray
 def jnats (j : Json) : List Nat := (jarr j).map jnat
 def joptNat (j : Json) : Option Nat := jopt jnat j
 def joptInt (j : Json) : Option Int := jopt jint j
@@ -48,14 +48,22 @@ def outJson : Out → Json
   | .raise x => excJson x
   | .bad => Json.arr #["bad-op"]
 
-def parseOp (op : String) (args : List Json) : Option Op :=
+/-- a key argument: a string, or `["of", e]` = the key element `e` currently carries (generated idShorts cannot be spelled) -/
+def keyArg (s : St) (j : Json) : Key :=
+  match j with
+  | .str x => .user x
+  | _ => match jarr j with
+    | [_, e] => (match s.elems[jnat e]? with | some el => el.key.getD (.user "") | none => .user "")
+    | _ => .user ""
+
+def parseOp (s : St) (op : String) (args : List Json) : Option Op :=
   match op, args with
   | "mk", [k, key, sem, cls, vt] => some (.mk ⟨kindOf k, (joptStr key).map Key.user, none, joptNat sem, jnat cls, jnat vt⟩)
   | "ns", [k, key, items, cfg] =>
     (nsKindOf k).map (fun kd => .construct kd (joptStr key) ((jarr items).map jnats) (cfgOf cfg))
   | "add", [n, j, e] => some (.add (jnat n) (jnat j) (jnat e))
   | "remove", [n, j, e] => some (.remove (jnat n) (jnat j) (jnat e))
-  | "removeKey", [n, j, k] => some (.removeKey (jnat n) (jnat j) (.user (jstr k)))
+  | "removeKey", [n, j, k] => some (.removeKey (jnat n) (jnat j) (keyArg s k))
   | "discard", [n, j, e] => some (.discard (jnat n) (jnat j) (jnat e))
   | "pop", [n, j] => some (.pop (jnat n) (jnat j))
   | "popAt", [n, j, i] => some (.popAt (jnat n) (jnat j) (jint i))
@@ -71,7 +79,7 @@ def parseOp (op : String) (args : List Json) : Option Op :=
   | "rename", [e, k] => some (.rename (jnat e) (joptStr k))
   | "setSem", [e, sem] => some (.setSem (jnat e) (joptNat sem))
   | "nsAdd", [n, e] => some (.nsAdd (jnat n) (jnat e))
-  | "nsRemove", [n, a, k] => some (.nsRemove (jnat n) (kindOf a) (.user (jstr k)))
+  | "nsRemove", [n, a, k] => some (.nsRemove (jnat n) (kindOf a) (keyArg s k))
   | _, _ => none
 
 /-- the keys every lookup is probed with: the current key of every element (handle order), then the probe strings -/
@@ -112,7 +120,7 @@ def handle (s : St) (op : String) (args : List Json) : St × Json :=
   match op, args with
   | "view", [live, probes] => (s, view s (jarr live) ((jarr probes).map jstr))
   | _, _ =>
-    match parseOp op args with
+    match parseOp s op args with
     | some o => let (s', out) := step s o; (s', outJson out)
     | none => (s, Json.arr #["bad-op"])
 
